@@ -33,7 +33,8 @@ class Job:
         self.harness = harness        # fully qualified, e.g. c15::c15_step_vec
         self.cfgs = tuple(cfgs)       # extra --cfg names (hooks)
         self.env = dict(env or {})    # hook environment (compile-time limits)
-        self.timeout = timeout
+        # VERIF_TIMEOUT_SCALE stretches every per-job cap (for a loaded machine); a timeout is always INCONCLUSIVE, never a pass
+        self.timeout = int(timeout * float(os.environ.get("VERIF_TIMEOUT_SCALE", "1")))
         self.mem_gb = mem_gb
         self.kind = kind              # proof | witness
         self.covers = covers          # None = all covers must be SATISFIED; else set of descriptions allowed UNSAT
